@@ -410,6 +410,9 @@ func (m *MonC03) Probe(idx int) {
 	fr := []string{"1", "0.5", "0.05", "0.999999999999999999"}
 	for i := 1; i < len(m.R.W.Vals) && !m.R.Halt; i++ {
 		f := math.LegacyMustNewDecFromStr(fr[(idx+i)%len(fr)])
+		if !m.R.valExists(i) {
+			continue // x/staking only slashes validators it knows
+		}
 		rec := m.R.SlashOn(m.R.W.Ctx, m.R.W.Vals[i].Oper, f, false)
 		if rec.Err != "" || rec.Panic != "" {
 			continue
